@@ -129,8 +129,10 @@ def handle (args : List String) : Option String :=
       | _, _, _ => "bad-case"
     let v := verdict data goTrace
     some <| impl ++ "\t" ++ v ++ "\t" ++ (if v = "pass" then "-" else "unlisted")
-  -- self-test of the oracle: the Spec checker on a hand-written (possibly tampered) trace; no Impl column
-  | ["retry.selftest", d, goTrace] => some <| "-\t" ++ verdict (unhexS d) goTrace ++ "\t-"
+  -- self-test of the oracle: the Spec checker's verdict on a hand-written (possibly tampered) trace
+  | ["retry.selftest", d, goTrace] =>
+    let v := verdict (unhexS d) goTrace
+    some <| v ++ "\t" ++ v ++ "\t-"
   -- end-to-end steps through FetchPackage / fetchRepositoryIndex: the verdict is computed by the harness
   | ["retry.e2e", _] => some "-\t-\tunlisted"
   | _ => none
